@@ -16,11 +16,11 @@ CHECKS = {
          "Trusted: the boolean model, libsecp256k1 for signatures, the Elements environment builder. Leaf truths come from executing the library's own one-leaf programs (so lock-time answers are true of the environment by construction).",
          "DESIGN.md §6 C16"),
  "C02": ("property-based testing: raw byte strings, byte-level mutations of valid encodings and single-rule canonicity violations assembled with an independent bit-level writer; round-trip (re-encode = input) oracle with fuel and allocation meters",
-         "Exploration: every input is decoded by RedeemNode::decode, CommitNode::decode and ConstructNode::decode under a DAG-step fuel limit (2^28), an allocation bound (96 MiB + 4096*len) and with overflow checks on; anything accepted must re-encode to exactly the input; each directed negative (unused node, non-canonical order, unshared duplicate, repeated hidden node, trailing byte, non-zero padding, short witness) must be rejected while its canonical twin is accepted.",
+         "Exploration: every input is decoded by RedeemNode::decode, CommitNode::decode and ConstructNode::decode under a DAG-step fuel limit (2^28), an allocation bound (96 MiB + 4096*len) and with overflow checks on; anything accepted must re-encode to exactly the input; a directed valid program whose witness has a zero-width type with 2^k tree nodes (k = 20..64) must be accepted within the same bounds; each directed negative (unused node, non-canonical order, unshared duplicate, repeated hidden node, trailing byte, non-zero padding, short witness) must be rejected while its canonical twin is accepted.",
          "Trusted: model::wire (reader/writer of the bit format, cross-checked against the encoder on every valid program), the fuel hook, the counting allocator. Jet bit codes come from the crate's encode tables. The libFuzzer campaign of the thorough tier extends the raw-bytes part.",
          "DESIGN.md §6 C02"),
  "C03": ("property-based differential testing against the vendored C implementation: valid, pruned, mutated and raw (program, witness) byte pairs",
-         "Exploration with a differential partner: acceptance by RedeemNode::decode::<Elements> must coincide with acceptance by the C pipeline (decode, type inference, witness, IHR uniqueness, 1->1) except C FailCode and C resource refusals; cmr, amr, ihr and the cost bound must be identical whenever both accept.",
+         "Exploration with a differential partner: acceptance by RedeemNode::decode::<Elements> must coincide with acceptance by the C pipeline (decode, type inference, witness, IHR uniqueness, 1->1) except C FailCode and C resource refusals; cmr, amr, ihr and the cost bound must be identical whenever both accept. Part of the valid/mutated population has one witness of a completely pinned type (every width 1..1400 for the SHA-256 padding of the witness hash, padded sums, equal-width arms).",
          "Trusted: libsimplicity as the reference, the FFI struct layouts declared by simplicity-sys (asserted against C by its own tests). Inputs whose declared node count cannot fit the input are not given to C (it allocates from the length prefix).",
          "DESIGN.md §6 C03"),
  "C09": ("property-based testing: generated programs x witness assignments x disconnect variants x hidden sets x conversion paths x single structural edits, against from-scratch tagged hashing",
@@ -28,7 +28,7 @@ CHECKS = {
          "Trusted: model::cmr (tags and block layout re-derived; only the SHA-256 compression function is taken from bitcoin_hashes), jet roots from the crate's tables (checked against C by C14). Policy::cmr is checked under C16.",
          "DESIGN.md §6 C09"),
  "C01": ("property-based testing: generated well-typed program IRs (Core and Elements jets) x generated witnesses; encode/decode round-trip oracle over MaxSharing post-order walks",
-         "Exploration with a round-trip oracle: commit-time (CommitNode::decode) and redemption-time (RedeemNode::decode) round trips of generated programs with all combinator kinds, sharing swept 0..0.6; element-wise equality of combinator, payload, child indices, cmr, arrows, ihr/amr, witness bits; re-encoding reproduces both byte streams.",
+         "Exploration with a round-trip oracle: commit-time (CommitNode::decode) and redemption-time (RedeemNode::decode) round trips of generated programs with all combinator kinds, sharing swept 0..0.6, hidden roots and fail entropies re-used within a program, plus single-witness programs whose witness type is pinned completely (exact widths 1..1400, padded sums, equal-width arms); element-wise equality of combinator, payload, child indices, cmr, arrows, ihr/amr, witness bits; re-encoding reproduces both byte streams.",
          "Trusted: the IR-first generator (the inference context holds only the program's own nodes, as the quantifier requires; commit-time programs never share witness/disconnect-bearing sub-expressions). Programs produced by prune are outside this property's quantifier and are checked by C08.",
          "DESIGN.md §6 C01"),
  "C08": ("property-based testing: generated satisfying programs x witnesses; metamorphic/differential oracle (same cmr, still runs, Rust re-decode, libsimplicity CHECK_ALL via own 9-parameter binding, idempotence)",
@@ -36,11 +36,11 @@ CHECKS = {
          "Trusted: libsimplicity as reference for the anti-DoS rule; own extern declaration of evalTCOExpression with the C header's parameter list; minimal Elements environment (jets are the Elements namesakes of modelled Core jets). Known finding F15 is excluded by a predicate on the pruned program (case/assertion identity-root collision).",
          "DESIGN.md §6 C08"),
  "C12": ("property-based testing: generated programs x wrong-typed witness candidates x API routes; validity predicate on the result",
-         "Exploration of a validity predicate: for right-typed, wider, narrower, same-width-other-shape, unit and missing candidates on every witness node, finalize_unpruned, finalize_pruned and the witness-map route must return Err or a program whose witnesses all have their node's target type, whose serialisation decodes back and which runs without panic.",
+         "Exploration of a validity predicate: for right-typed, wider, narrower, same-width-other-shape, unit and missing candidates on every witness node, finalize_unpruned, finalize_pruned, the witness-map route (Forest::from_program) and a forest route with several roots (holes named after other roots, one name shared by several disconnect nodes at different types; right-typed witnesses only) must return Err or a program whose witnesses all have their node's target type, whose serialisation decodes back (with well-typed decoded witnesses) and which runs without panic.",
          "Trusted: the generator and the two-pass typing. Known findings F4/F4b (unchecked attachment, panics downstream) are keyed on cases that contain a wrong-typed candidate; with only right-typed candidates any failure is a violation.",
          "DESIGN.md §6 C12"),
  "C05": ("property-based testing: type-directed program generation x generated inputs/witnesses, differential against a width-free big-step evaluator; metamorphic wrappers",
-         "Exploration with a reference model (model::eval over value trees, model::jets for 240+ Core jets, model::cmr for the root passed by disconnect): verdict, failure kind (with hidden root) and output value of every run must equal the semantics; each run is repeated under three wrappers that move the program to unaligned offsets and reused frames.",
+         "Exploration with a reference model (model::eval over value trees, model::jets for 240+ Core jets, model::cmr for the root passed by disconnect): verdict, failure kind (with hidden root) and output value of every run must equal the semantics; each run is repeated under three wrappers that move the program to unaligned offsets and reused frames. Two directed populations: projections over byte-oriented records (copies of >= 8 bits that are not a multiple of 8 at all residues next to live frames) and disconnect nodes whose left child echoes the root it is handed, at non-byte offsets in non-zero memory.",
          "Trusted: model::eval/model::jets/model::cmr/model::layout, the IR-first generator (each reachable IR node is materialised exactly once in a fresh context). Jet names and type names are read from the crate's tables (checked against C by C14). Only Core jets with a functional model are generated; others are covered differentially by C06.",
          "DESIGN.md §6 C05"),
  "C07": ("property-based testing with an instrumentation hook: generated programs and deep comp nests executed on generated inputs; invariant over the machine's high-water marks; directed type-bomb refusal cases",
@@ -60,7 +60,7 @@ CHECKS = {
          "Trusted: the recursive specifications in harness/src/props/c18.rs. Every shape of <= 48 nodes is also built as a DAG of real CommitNodes (unit/iden, injl, pair) and walked with the library's own MaxSharing<Commit> and InternalSharing trackers on &Node and Arc<Node> (post-order items, pre-order set, is_shared_as for the three policies) against a recursive specification over pointers / identity hashes.",
          "DESIGN.md §6 C18"),
  "C06": ("property-based differential testing of the Rust Bit Machine against libsimplicity's evaluator: generated Elements programs and per-jet templates (all 471 jets) x generated witnesses x generated transaction environments; verdict comparison",
-         "Exploration with a differential partner: the verdict of BitMachine::exec (success / assertion / jet failure) must equal the verdict of evalTCOExpression(CHECK_NONE) on the program's serialisation in the same marshalled environment. Per-jet templates compare the jet's output inside the program with the value the Rust machine observed (combinator-only equality feeding assertr or the verify jet), so the verdict depends on every output bit as the C evaluator computes it; one-bit mutations of the expected value must fail with the predicted kind on both sides.",
+         "Exploration with a differential partner: the verdict of BitMachine::exec (success / assertion / jet failure) must equal the verdict of evalTCOExpression(CHECK_NONE) on the program's serialisation in the same marshalled environment. Per-jet templates compare the jet's output inside the program with the value the Rust machine observed (combinator-only equality feeding assertr or the verify jet), so the verdict depends on every output bit as the C evaluator computes it; one-bit mutations of the expected value must fail with the predicted kind on both sides. The jet's argument sits alone in a fresh frame or, in half of the templates, behind / in front of a non-zero neighbour inside a larger frame; a delegation template checks the root that disconnect hands to its left child.",
          "Trusted: libsimplicity as the reference; own extern declaration of evalTCOExpression with the C header's 9 parameters; the environment is marshalled once by ElementsEnv::new and shared (as the property states; its content is C15's subject). Programs with fail nodes are outside (C does not decode them); for_program refusals, LimitExceeded and C ExecMemory/ExecBudget/Malloc are counted as outside the limits. A program C refuses to decode or type is C03's subject and is counted, not compared.",
          "DESIGN.md §6 C06"),
  "C15": ("property-based testing: generated Elements transaction environments x 67 introspection jets x in-range and out-of-range indices, against field values recomputed from the Rust-side description",
